@@ -32,6 +32,11 @@ type SubSpec struct {
 	// Mask: read mask of the subscription (scenarios with Msg = "dur" only): "seconds" selects the field that carries
 	// the payload, "nanos" only a field no item ever sets (the subscriber sees every item as the empty message)
 	Mask string `json:"mask,omitempty"`
+	// Include: the subscription is made with resource.WithInclude(<filter>): "" = no filter | all (every item) |
+	// id (every item but those named w1-…) | val (by payload: every item whose sequence number is not 2 mod 3; the
+	// empty message of an initial record is included).  An update can move an item out of / into a "val" filter: the
+	// subscriber is then told REMOVE / ADD; the REMOVE of an item it had been shown always reaches it.
+	Include string `json:"include,omitempty"`
 	StopAfter   int    `json:"stopAfter,omitempty"`
 	Cancel      string `json:"cancel"` // end | before | timer | point | never
 	CancelUs    int    `json:"cancelUs,omitempty"`
@@ -317,7 +322,56 @@ func optsOf(sp SubSpec) []resource.ReadOption {
 	if sp.Mask != "" {
 		opts = append(opts, resource.WithReadPaths(&durationpb.Duration{}, sp.Mask))
 	}
+	if sp.Include != "" {
+		opts = append(opts, resource.WithInclude(func(id string, item proto.Message) bool {
+			_, seq, _ := decode(item)
+			return sp.includes(id, seq)
+		}))
+	}
 	return opts
+}
+
+// includes: the harness's own statement of the subscription's WithInclude filter, on (stored id, sequence number of
+// the payload; 0 = the empty message)
+func (sp SubSpec) includes(id string, seq int) bool {
+	switch sp.Include {
+	case "id":
+		return !strings.HasPrefix(base(id), "w1-")
+	case "val":
+		return seq%3 != 2
+	}
+	return true
+}
+
+// throughInclude: what a subscriber with sp's filter is told when the changes `es` (of any number of items, each
+// item's changes in order) happen one by one: a change between two included states as it is, one that moves the item
+// into the filter as ADD, out of it (or removes an included item) as REMOVE, one between two excluded states not at all.
+// initial: the items that exist (as the empty message) before the first change.
+func (sp SubSpec) throughInclude(es []ev, initial []string) []ev {
+	if sp.Include == "" {
+		return es
+	}
+	inc := map[string]bool{}
+	for _, id := range initial {
+		inc[id] = sp.includes(id, 0)
+	}
+	var res []ev
+	for _, e := range es {
+		was := inc[e.ID]
+		now := e.Typ != "REMOVE" && sp.includes(e.ID, e.Seq)
+		inc[e.ID] = now
+		switch {
+		case was && now:
+			res = append(res, e)
+		case now:
+			e.Typ = "ADD"
+			res = append(res, e)
+		case was:
+			e.Typ, e.Seq = "REMOVE", 0
+			res = append(res, e)
+		}
+	}
+	return res
 }
 
 // blind: the subscription's read mask hides the payload (delivery is judged by change type and item only)
@@ -435,6 +489,7 @@ func runStress(sc Scenario) (out Outcome) {
 		present[id] = true
 	}
 	removed := map[string]bool{} // items for which a Delete succeeded while they were present (every subscription is older)
+	lastSeq := map[string]int{}  // sequence number of the payload last written to the item (0 = the initial empty message)
 	var presentMu sync.Mutex
 	writers := make([]*writerRun, len(sc.Writers))
 	start := make(chan struct{})
@@ -456,6 +511,7 @@ func runStress(sc Scenario) (out Outcome) {
 			if err == nil {
 				presentMu.Lock()
 				present[k] = true
+				lastSeq[k] = seq
 				presentMu.Unlock()
 			}
 			t := types.ChangeType_UPDATE
@@ -624,7 +680,8 @@ func runStress(sc Scenario) (out Outcome) {
 		for _, id := range sc.Initial {
 			inInitial = inInitial || id == key(s.spec.ID)
 		}
-		if !gone || !inInitial {
+		if !gone || !inInitial || !s.spec.includes(key(s.spec.ID), 0) {
+			// (a filter that does not include the item when the subscription is made shows the subscriber nothing to end on)
 			continue
 		}
 		o.eval(monShutdown, "pullid-ends/"+s.class(sc.Res), true)
@@ -653,8 +710,8 @@ func runStress(sc Scenario) (out Outcome) {
 			}
 			sort.Strings(ids)
 			for _, id := range ids {
-				if s.view[id] != present[id] {
-					return fmt.Sprintf("item %q: exists=%v, the subscriber was last told exists=%v", id, present[id], s.view[id])
+				if shown := present[id] && s.spec.includes(id, lastSeq[id]); s.view[id] != shown {
+					return fmt.Sprintf("item %q: exists=%v, the subscriber was last told exists=%v", id, shown, s.view[id])
 				}
 			}
 			return ""
@@ -811,10 +868,13 @@ func checkDelivery(o *Outcome, sc Scenario, subs []*subRun, writers []*writerRun
 		want := map[int][]ev{}
 		if s.spec.Kind == "pullid" {
 			// the updates of its id up to (excluding) the removal
+			var own []ev
 			for _, e := range expectedBy[writerOfID(s.spec.ID)] {
-				if e.ID != canon(sc.Icpt, s.spec.ID) {
-					continue
+				if e.ID == canon(sc.Icpt, s.spec.ID) {
+					own = append(own, e)
 				}
+			}
+			for _, e := range s.spec.throughInclude(own, sc.Initial) {
 				if e.Typ == "REMOVE" {
 					break
 				}
@@ -834,7 +894,7 @@ func checkDelivery(o *Outcome, sc Scenario, subs []*subRun, writers []*writerRun
 					}
 					continue
 				}
-				want[w] = es
+				want[w] = s.spec.throughInclude(es, sc.Initial)
 			}
 		}
 		total := 0
